@@ -325,6 +325,27 @@ def gen_case(rng, kind="valid"):
                 edges.append([s_, t_, str(Fr(rng.choice([-3, -2, -1, 1, 2, 3]), 2)), [str(rng.randint(2, 5) * dt)]])
             if not any(x[3] != "nokey" and len(x[3]) == 1 for x in edges):
                 continue
+        if kind == "subthreshold":
+            # the add_delay decision is per partition (spread edges / spread-less edges): one partition at or below its threshold, the other
+            # above, both ways, on one source node or on units of one class
+            dde = 0
+            s_ = rng.choice(S); same = [i for i in S if nodes[i]["cls"] == nodes[s_]["cls"]]
+            edges = [e for e in edges if e[0] not in same]
+            low_spread = rng.random() < 0.6
+            n_sp = rng.randint(1, 2); n_pl = rng.randint(1, 2)
+            for j_ in range(n_sp):
+                # (a sub-step kernel edge keeps its kernel when a sibling kernel edge of the partition is above the step: in scope)
+                d = rng.choice([dt / 2, dt]) if low_spread and not (j_ == 1 and rng.random() < 0.5) else rng.choice([Fr(1, 2), Fr(1)])
+                edges.append([rng.choice(same) if vec else s_, rng.choice(T), str(Fr(rng.choice([-2, -1, 1, 2]), 2)), [str(d), str(d)]])
+            for _ in range(n_pl):
+                k = rng.randint(2, 5) if low_spread or rng.random() < 0.3 else 1
+                edges.append([rng.choice(same) if vec else s_, rng.choice(T), str(Fr(rng.choice([-2, -1, 1, 2]), 2)), [str(k * dt)]])
+            if not vec:
+                seen, out = set(), []
+                for e in edges:
+                    if (e[0], e[1]) not in seen:
+                        seen.add((e[0], e[1])); out.append(e)
+                edges = out
         if kind == "mixkeys":
             # vectorized, dde_approx > 0, a plain-delay edge and a (delay, spread) edge in ONE edge group (same source class, target class)
             vec = True; dde = dde or rng.choice([1, 2])
@@ -508,7 +529,7 @@ def nontrivial(case):
 
 # ---------------------------------------------------------------------------------------------- model side
 LIST_GUARDS = ["g_no_tap_on_buffered", "g_no_int_unit_delay", "g_no_twin_collision"]
-SCOPE_GUARDS = ["g_plain_ge2"]          # plain discrete delays below two steps are neglected by the implementation: mechanism model only
+SCOPE_GUARDS = ["g_plain_ge2", "g_above_step"]   # (g_above_step: a kernel partition at or below the step size is neglected; per partition since D114)          # neglected delays are outside the property: such cases are compared with the mechanism model only
 GUARDS = ["g_no_plain_in_spread_group", "g_plain_ge2", "g_no_undelayed_kernel", "g_above_step", "g_rates_exact", "g_no_scalar_shared_chain", "g_uniform_keys"] + LIST_GUARDS
 HEADER = """From Coq Require Import List ZArith QArith Qcanon Bool Arith.
 From PV Require Import Ring Gamma Corr.
@@ -632,7 +653,7 @@ def check(ctx):
         cases += [gen_case(ctx.rng, "valid") for _ in range(n_valid)]
         cases += [gen_case(ctx.rng, "chains") for _ in range(n_valid // 5)]
         cases += [gen_case(ctx.rng, "scaled") for _ in range(n_valid // 4)]
-        for kind in ("plain", "dde", "kernel", "shared", "perm", "tap", "intdelay", "mixkeys", "twin", "mixkinds", "mixkinds"):
+        for kind in ("plain", "dde", "kernel", "shared", "perm", "tap", "intdelay", "mixkeys", "twin", "mixkinds", "mixkinds", "subthreshold", "subthreshold"):
             cases += [gen_case(ctx.rng, kind) for _ in range(n_viol)]
         cases += [gen_conn(ctx.rng) for _ in range(n_valid * 2 // 5)]
     acases = [c for c in cases if c.get("adaptive")]; cases = [c for c in cases if not c.get("adaptive")]
